@@ -30,7 +30,7 @@ func TestC05(t *testing.T) {
 		scenario(rec, c)
 		return
 	}
-	n := rec.N(40, 600)
+	n := rec.N(64, 800)
 	for c := 0; c < n; c++ {
 		if rec.Mine(c) {
 			scenario(rec, c)
